@@ -275,7 +275,7 @@ func evalLog(c *lcase) (string, int) {
 				if err != nil {
 					return fmt.Sprintf("cut at %d of %d: entry %d is complete but Read failed: %v", cut, len(data), i, err), n
 				}
-				if got, want := en.Time, time.UnixMicro(floorMicro(times[kept[i].T])).UTC(); !got.Equal(want) || got.Location() != time.UTC {
+				if got, want := en.Time, time.UnixMicro(floorMicro(times[kept[i].T])).UTC(); !got.Equal(want) {
 					return fmt.Sprintf("entry %d time %v, written %v (to the microsecond %v)", i, got, times[kept[i].T], want), n
 				}
 				if d := sameFrame(en.Frame, kept[i].F, c.Dialect); d != "" {
